@@ -40,9 +40,9 @@ func (s *State) clone() *State {
 type CallHook func(ex *Exec, st *State, fn *ssa.Function, args []Value) (Value, bool)
 
 type Exec struct {
-	prog   *ssa.Program
-	pkg    *ssa.Package
-	fset   *token.FileSet
+	prog      *ssa.Program
+	pkg       *ssa.Package
+	fset      *token.FileSet
 	assumes   []*Term
 	panics    []PanicRec
 	notes     map[string]bool
